@@ -53,6 +53,7 @@ def parse_clause(src):
 
 class CallMixin:
     spec_names = SPEC_NAMES
+    sk_idx = {}
     in_message = 0
 
     # ================================================================ call expression
@@ -229,6 +230,17 @@ class CallMixin:
         f = inspect.unwrap(func)
         if getattr(f, '__pyvc_spec__', False):
             return self.inline(f, args, kwargs, owner, spec=True)
+        un = getattr(f, '__pyvc_uninterp__', None)
+        if un is not None:
+            sorts, result = un
+            ks = [parse_kind(s) for s in sorts]
+            rk = parse_kind(result)
+            F = z3.Function('U_' + f.__name__, *[sort_of(k) for k in ks], sort_of(rk))
+            ts = []
+            for a, k in zip(args, ks):
+                a = self.force(a) if k.name != 'opt' else a
+                ts.append(self.coerce(a, k))
+            return self.wf_value(SV(rk, F(*ts)))
         tgt = self.target_of(f)
         c = self.select_contract(tgt, f, args, kwargs)
         if c is not None and not self.term_mode:
@@ -241,7 +253,7 @@ class CallMixin:
         return self.inline(f, args, kwargs, owner)
 
     def select_contract(self, tgt, f, args, kwargs):
-        cands = self.reg.by_target.get(tgt)
+        cands = [c for c in self.reg.by_target.get(tgt, ()) if not c.verify_only]
         if not cands:
             return None
         if len(cands) == 1:
@@ -425,6 +437,12 @@ class CallMixin:
                 v = env[n]
                 if v.kind.name in ('emptylist', 'emptydict', 'emptyset'):
                     v = self.materialise(v, want.args[0] if want.name == 'opt' else want)
+                if v.kind.name == 'opt' and want.name != 'opt' and not self.term_mode:
+                    v = self.force(v)
+                if v.kind == NONE and want.name not in ('opt', 'none', 'any'):
+                    self.prove(f'{fr.qualname}::pre({c.short}#{fr.call_ordinals.get(c.short, 0)})'
+                               f'[{n} is not None]', z3.BoolVal(False))
+                    raise Infeasible()
                 if v.kind != want and v.kind != CONST:
                     try:
                         env[n] = SV(want, self.coerce(v, want))
@@ -442,8 +460,8 @@ class CallMixin:
         saved_old = self.old
         self.old = (old_heap, penv)
         try:
-            for i, rq in enumerate(c.requires):
-                t = self.eval_clause(rq, env=penv, contract=c)
+            for i, rq in enumerate(c.requires + c.domain):
+                t = self.eval_clause(rq, env=penv, contract=c, polarity=1)
                 self.prove(f'{fr.qualname}::pre({c.short}#{ordk})[{i}]', t)
             for exc, cond in c.raises.items():
                 t = self.eval_clause(cond, env=penv, contract=c)
@@ -469,7 +487,7 @@ class CallMixin:
             else:
                 res = self.sym('ret_' + c.short.split('.')[-1], rk) if rk != NONE else NONEV
                 penv['result'] = res
-            for name, en in c.ensures.items():
+            for name, en in list(c.ensures.items()) + list(c.trusted_ensures.items()):
                 p.assume(self.eval_clause(en, env=penv, contract=c))
         finally:
             self.old = saved_old
@@ -531,8 +549,9 @@ class CallMixin:
         raise Unsupported(f'unknown exception class {name}')
 
     # ================================================================ clauses
-    def eval_clause(self, src, env=None, contract=None, extra=None):
-        """z3 Bool for a contract clause, evaluated in term mode."""
+    def eval_clause(self, src, env=None, contract=None, extra=None, polarity=-1):
+        """z3 Bool for a contract clause, evaluated in term mode.
+        polarity +1: the clause is a goal; -1: it is assumed."""
         from .engine import Frame
         node = parse_clause(src)
         if env is None:
@@ -556,10 +575,15 @@ class CallMixin:
                    contract=None, cls=None)
         self.frames.append(fr)
         self.term_mode += 1
+        saved_pol, saved_b = self.polarity, self.binders
+        self.polarity, self.binders = polarity, ()
+        if self.term_mode == 1:
+            self.sk_idx = {}
         try:
             v = self.eval(node)
             return self.truthy(v)
         finally:
+            self.polarity, self.binders = saved_pol, saved_b
             self.term_mode -= 1
             self.frames.pop()
 
@@ -590,10 +614,23 @@ class CallMixin:
                         old_heap[k] = a
                 p.heap = cur_heap
                 fr.locals = cur_locals
-        if name in ('implies', 'iff'):
-            a = self.truthy(self.eval(e.args[0]))
+        if name == 'implies':
+            self.polarity = -self.polarity
+            try:
+                a = self.truthy(self.eval(e.args[0]))
+            finally:
+                self.polarity = -self.polarity
             b = self.truthy(self.eval(e.args[1]))
-            return SV(BOOL, z3.Implies(a, b) if name == 'implies' else a == b)
+            return SV(BOOL, z3.Implies(a, b))
+        if name == 'iff':
+            saved = self.polarity
+            self.polarity = 0
+            try:
+                a = self.truthy(self.eval(e.args[0]))
+                b = self.truthy(self.eval(e.args[1]))
+            finally:
+                self.polarity = saved
+            return SV(BOOL, a == b)
         if name in ('forall', 'exists'):
             lam = e.args[0]
             if not isinstance(lam, ast.Lambda):
@@ -604,17 +641,68 @@ class CallMixin:
             names = [a.arg for a in lam.args.args]
             vars_ = []
             saved = dict(self.frame.locals)
+            # forall in a goal / exists in an assumption: skolemise (fresh constants)
+            skolem = (name == 'forall' and self.polarity > 0) or \
+                     (name == 'exists' and self.polarity < 0)
+            binder = dict(vars=[], defs=[])
             self.term_mode += 1
             try:
+                pool_goal = name == 'forall' and skolem
                 for n in names:
                     k = kinds.get(n, INT)
-                    x = z3.Const(f'{n}!q{p.fresh_name("")}', sort_of(k))
+                    if pool_goal:
+                        idx = self.sk_idx.get(str(sort_of(k)), 0)
+                        self.sk_idx[str(sort_of(k))] = idx + 1
+                        x = z3.Const(f'sk!{sort_name(sort_of(k))}!{idx}', sort_of(k))
+                    else:
+                        x = z3.Const(f'{n}!{"sk" if skolem else "q"}{p.fresh_name("")}', sort_of(k))
                     vars_.append(x)
                     self.frame.locals[n] = SV(k, x)
-                body = self.truthy(self.eval(lam.body))
+                if not skolem:
+                    binder['vars'] = vars_
+                    self.binders = list(self.binders) + [binder]
+                try:
+                    body = self.truthy(self.eval(lam.body))
+                finally:
+                    if not skolem:
+                        self.binders = list(self.binders)[:-1]
             finally:
                 self.term_mode -= 1
                 self.frame.locals = saved
+            if skolem:
+                if getattr(self, 'skolems', None) is not None:
+                    for n, x in zip(names, vars_):
+                        self.skolems.append((n, x))
+                return SV(BOOL, body)
+            if binder['defs'] and self.polarity == 0:
+                raise Unsupported('div/mod of a bound variable under a quantifier of unknown polarity')
+            if name == 'forall' and self.polarity < 0:
+                # assumed universal: instantiate at the goal skolem constants (sound);
+                # keep the quantifier itself only when it is free of div/mod definitions
+                import itertools
+                pools = [[z3.Const(f'sk!{sort_name(v.sort())}!{i}', v.sort()) for i in range(2)]
+                         for v in vars_]
+                insts = []
+                saved2 = dict(self.frame.locals)
+                saved_b = self.binders
+                self.binders = ()
+                self.term_mode += 1
+                try:
+                    for combo in itertools.product(*pools):
+                        for n, c_ in zip(names, combo):
+                            self.frame.locals[n] = SV(kinds.get(n, INT), c_)
+                        insts.append(self.truthy(self.eval(lam.body)))
+                finally:
+                    self.term_mode -= 1
+                    self.binders = saved_b
+                    self.frame.locals = saved2
+                if not binder['defs']:
+                    insts.append(z3.ForAll(vars_, body))
+                return SV(BOOL, z3.And(*insts))
+            if binder['defs'] and name == 'exists' and self.polarity > 0:
+                body = z3.And(*(binder['defs'] + [body]))
+            elif binder['defs']:
+                raise Unsupported('div/mod of a bound variable under this quantifier')
             q = z3.ForAll(vars_, body) if name == 'forall' else z3.Exists(vars_, body)
             return SV(BOOL, q)
         if name == 'int_text':
